@@ -55,6 +55,11 @@ func CLI(cwd string, stdin []byte, args ...string) *CLIResult {
 
 // CLIWrapped runs the binary under a wrapper command (e.g. prlimit, strace).
 func CLIWrapped(wrapper []string, cwd string, stdin []byte, args ...string) *CLIResult {
+	return CLIEnv(nil, wrapper, cwd, stdin, args...)
+}
+
+// CLIEnv is CLIWrapped with extra environment entries ("K=V").
+func CLIEnv(env []string, wrapper []string, cwd string, stdin []byte, args ...string) *CLIResult {
 	ctx, cancel := context.WithTimeout(context.Background(), CLITimeout)
 	defer cancel()
 	argv := append(append([]string{}, wrapper...), Bin())
@@ -64,7 +69,7 @@ func CLIWrapped(wrapper []string, cwd string, stdin []byte, args ...string) *CLI
 	cmd.Stdin = bytes.NewReader(stdin)
 	var so, se bytes.Buffer
 	cmd.Stdout, cmd.Stderr = &so, &se
-	cmd.Env = append(os.Environ(), "GOTRACEBACK=all")
+	cmd.Env = append(append(os.Environ(), "GOTRACEBACK=all"), env...)
 	cmd.WaitDelay = 2 * time.Second
 	start := time.Now()
 	err := cmd.Run()
